@@ -335,7 +335,12 @@ func (en *DefaultEngine) runFirst(ctx context.Context) (bool, error) {
 	en.ca.Push()
 	rs := resource.NewMenuResource()
 	rs.AddLocalFunc("_first", en.first)
+	sizeIdx := en.st.SizeIdx
 	en.st.Down("_first")
+	defer func() {
+		// the detour through the pre-VM node must not lose the page the session is on
+		en.st.SizeIdx = sizeIdx
+	}()
 	defer en.ca.Pop()
 	defer en.st.Up()
 	defer en.st.ResetFlag(state.FLAG_TERMINATE)
